@@ -578,19 +578,8 @@ func orTerms(v ssa.Value, bufMatch func(ssa.Value) bool) (map[int]int, bool) {
 			return false
 		}
 		w := map[string]int{"16": 2, "32": 4, "64": 8}[n[len(n)-2:]]
-		base := 0
-		arg := x.Call.Args[1]
-		if sl, ok := arg.(*ssa.Slice); ok {
-			if sl.Low != nil {
-				k, ok := constInt(sl.Low)
-				if !ok {
-					return false
-				}
-				base = int(k)
-			}
-			arg = sl.X
-		}
-		if w == 0 || !bufMatch(arg) {
+		arg, base, okB := sliceBase(x.Call.Args[1])
+		if !okB || w == 0 || !bufMatch(arg) {
 			return false
 		}
 		for i := 0; i < w; i++ {
@@ -614,7 +603,27 @@ func orTerms(v ssa.Value, bufMatch func(ssa.Value) bool) (map[int]int, bool) {
 		}
 		switch x := v.(type) {
 		case *ssa.Call:
-			return multi(x, 0)
+			if multi(x, 0) {
+				return true
+			}
+			// a repo decode helper applied to (a re-slicing of) the buffer: its own table, shifted by the slice offset
+			if f := x.Call.StaticCallee(); f != nil && f.Blocks != nil && len(f.Params) == 1 && len(x.Call.Args) == 1 && f.Signature.Results().Len() == 1 {
+				arg, base, okB := sliceBase(x.Call.Args[0])
+				rets := retInstrs(f)
+				if okB && bufMatch(arg) && len(rets) == 1 {
+					sub, okS := orTerms(rets[0].Results[0], func(v ssa.Value) bool { return v == ssa.Value(f.Params[0]) })
+					if okS {
+						for i, sh := range sub {
+							if _, dup := out[base+i]; dup {
+								return false
+							}
+							out[base+i] = sh
+						}
+						return true
+					}
+				}
+			}
+			return false
 		case *ssa.BinOp:
 			if x.Op == token.OR || x.Op == token.ADD {
 				return rec(x.X) && rec(x.Y)
@@ -671,9 +680,32 @@ func byteIndex(v ssa.Value, bufMatch func(ssa.Value) bool) (int, bool) {
 		return 0, false
 	}
 	ia, ok := u.X.(*ssa.IndexAddr)
-	if !ok || !bufMatch(ia.X) {
+	if !ok {
+		return 0, false
+	}
+	base, off, ok := sliceBase(ia.X)
+	if !ok || !bufMatch(base) {
 		return 0, false
 	}
 	k, ok := constInt(ia.Index)
-	return int(k), ok
+	return off + int(k), ok
+}
+
+// sliceBase peels constant-offset re-slicings: x[a:][b:] → (x, a+b).
+func sliceBase(v ssa.Value) (ssa.Value, int, bool) {
+	off := 0
+	for {
+		sl, ok := v.(*ssa.Slice)
+		if !ok {
+			return v, off, true
+		}
+		if sl.Low != nil {
+			k, ok := constInt(sl.Low)
+			if !ok {
+				return nil, 0, false
+			}
+			off += int(k)
+		}
+		v = sl.X
+	}
 }
